@@ -96,10 +96,15 @@ class FBuilder(Builder):
         self.mstmts.append(("app", root_const, False, cop, [root_node, w_node]))
         self._root_node[root] = node
         self.inplace_touched.add(root)
-        # re-derive every live member
+        self._rederive(root, node)
+
+    def _rederive(self, root, node):
+        """the root's current value is now model node `node`: every live member is re-derived from it"""
         for n in self.members(root):
             m = self.tensors[n]
             if n == root:
+                for k in [k for k, v in self.node_name.items() if v == n]:
+                    del self.node_name[k]
                 m.node = node
                 self.node_name[node] = n
                 continue
@@ -111,9 +116,6 @@ class FBuilder(Builder):
                 del self.node_name[k]
             m.node = mn
             self.node_name[mn] = n
-        if root in self.tensors:
-            for k in [k for k, v in self.node_name.items() if v == root and k != node]:
-                del self.node_name[k]
 
     def _root_shape(self, root):
         return self._root_shapes[root]
@@ -161,6 +163,61 @@ class FBuilder(Builder):
         self._mark()
         return True
 
+    def setshape(self, t, shape):
+        """t.shape = shape  (NumPy: in place on the array object; refuses when it would need a copy)"""
+        try:
+            probe = t.vals.view()
+            probe.shape = tuple(shape)
+        except (AttributeError, ValueError):
+            if int(np.prod(shape, dtype=np.int64)) == t.size:
+                # NumPy refuses (the new shape needs a copy): MyGrad must refuse too and change nothing
+                self.stmts.append({"op": "setshape", "t": t.name, "shape": [int(d) for d in shape], "expect": "raise"})
+                self._mark()
+                return True
+            return False
+        if tuple(probe.shape) == tuple(t.shape):
+            return False
+        t.vals.shape = probe.shape
+        t.shape = tuple(probe.shape)
+        self.bmap[t.name] = self.bmap[t.name].reshape(t.shape) if self.bmap[t.name].flags.c_contiguous else np.asarray(self.bmap[t.name]).reshape(-1)[...].reshape(t.shape) if False else self._reshape_map(t)
+        self.stmts.append({"op": "setshape", "t": t.name, "shape": [int(d) for d in t.shape]})
+        # functional meaning: like every in-place operation the tensor becomes a NEW node (a reshape of its old self);
+        # operations recorded before keep the old node, t.grad is w.r.t. the re-shaped tensor
+        self._ensure_root_info()
+        root = self.fam[t.name]
+        if root == t.name:
+            ident = exactops.Cop(t.size, [(0, list(range(t.size)))], ("lin", [[1] * t.size], [0] * t.size), None)
+            node = self._new_node()
+            self.mstmts.append(("app", t.const, True, ident, [self._root_node.get(root, t.node)]))
+            self._root_node[root] = node
+            self._root_shapes[root] = t.shape
+            self._rederive(root, node)
+        elif root in self.tensors:
+            self._rederive(root, self._root_node.get(root, self.tensors[root].node))
+        self._mark()
+        return True
+
+    def _reshape_map(self, t):
+        # positions follow the array's own element order, which NumPy preserved when it re-shaped the strides in place
+        lab = np.empty(t.vals.shape, dtype=np.int64)
+        root = self.fam[t.name]
+        rt = self.tensors.get(root)
+        if rt is None or root == t.name:
+            return np.arange(t.size, dtype=np.int64).reshape(t.shape)
+        # recover positions by labelling the root buffer
+        saved = rt.vals.copy()
+        flat_root = rt.vals.reshape(-1) if rt.vals.flags.c_contiguous else None
+        try:
+            owner = rt.vals
+            owner_flat_index = np.arange(owner.size, dtype=np.int64).reshape(owner.shape)
+            backup = owner.copy()
+            owner[...] = owner_flat_index
+            pos = t.vals.copy()
+            owner[...] = backup
+        finally:
+            pass
+        return pos.astype(np.int64)
+
     def aug(self, t, fn, v):
         """t <fn>= v   (functional meaning: w = fn(t, v); t[...] = w)"""
         self._ensure_root_info()
@@ -184,7 +241,7 @@ class FBuilder(Builder):
         self._mark()
         return True
 
-    def out_op(self, t, fn, operands, where=None):
+    def out_op(self, t, fn, operands, where=None, where_shape=None):
         """mg.<fn>(*operands, out=t, where=mask)"""
         self._ensure_root_info()
         try:
@@ -202,11 +259,12 @@ class FBuilder(Builder):
         if self.fam[t.name] not in self.tensors or not t.vals.flags.writeable:
             return False
         mask = None
-        if where is not None:
-            mask = np.asarray(where, dtype=bool).reshape(t.shape)
         s = {"op": "out", "t": t.name, "fn": fn, "args": js}
-        if mask is not None:
-            s["where"] = {"mask": [bool(b) for b in mask.ravel()], "shape": list(t.shape)}
+        if where is not None:
+            wshape = tuple(where_shape) if where_shape is not None else tuple(t.shape)
+            small = np.asarray(where, dtype=bool).reshape(wshape)
+            mask = np.array(np.broadcast_to(small, t.shape))
+            s["where"] = {"mask": [bool(b) for b in small.ravel()], "shape": list(wshape)}
         self.stmts.append(s)
         for i, n in enumerate(nodes):
             if n is None:
@@ -293,6 +351,10 @@ def _into(s, target):
 
 def mutate(b, rng, t):
     r = rng.random()
+    if r < 0.06 and t.size > 1 and t.name in b.tensors:
+        opts = [sh for sh in progs.SHAPES + [(t.size,)] if int(np.prod(sh, dtype=np.int64)) == t.size and tuple(sh) != tuple(t.shape)]
+        if opts:
+            return b.setshape(t, rng.choice(opts))
     if r < 0.5:
         # item assignment: basic / integer-array / boolean index
         kind = rng.random()
@@ -316,8 +378,15 @@ def mutate(b, rng, t):
     fn = rng.choice(["add", "multiply", "subtract", "maximum"])
     a1 = rand_value(b, rng, t.shape)
     a2 = rand_value(b, rng, t.shape)
-    where = [rng.random() < 0.6 for _ in range(t.size)] if rng.random() < 0.5 else None
-    return b.out_op(t, fn, [a1, a2], where)
+    where, wshape = None, None
+    if rng.random() < 0.5:
+        wshape = t.shape
+        if rng.random() < 0.4:
+            cand = progs.compat_shapes(rng, t.shape)
+            if _into(cand, t.shape):
+                wshape = cand     # a mask with fewer / unit axes, broadcast against the target
+        where = [rng.random() < 0.6 for _ in range(int(np.prod(wshape, dtype=np.int64)))]
+    return b.out_op(t, fn, [a1, a2], where, wshape)
 
 
 def gen_family_history(rng, n_events=None, with_backward=False):
